@@ -301,6 +301,8 @@ def run_x(out: Outcome, programs, prop, max_cex=8, nshards=None, timeout_s=600, 
         goto = r.get("goto") or ""
         if goto.endswith(".symtab.out"):
             goto = goto[:-len(".symtab.out")] + ".out"
+        if not h.inputs:
+            return {}, None          # an obligation without inputs (constants, builder()): the replay needs no counterexample
         if not os.path.exists(goto):
             return None, "goto binary not found"
         target = c
